@@ -225,7 +225,7 @@ def run_case(ctx, st, pt, p, heavy=True):
         # reverse
         r = a.reverse()
         same(r.reverse(), 'reverse-twice-not-identity')
-        for swap in (False, True):
+        for swap in (False, True, 1):      # a flag is a flag: 1 from a config file asks for the swap as True does
             rs = a.reverse(swap_terms=swap)
             b = a.copy()
             b.reverse(inplace=True, swap_terms=swap)
@@ -342,6 +342,36 @@ def run(ctx):
         heavy = i % 4 != 0
         p = gp.gen_pep(ctx.rng, small if heavy else big)
         run_case(ctx, st, pt, p, heavy)
+    # protein-sized annotations (257..320 residues: past the small-integer cache, past every block size a helper might
+    # use): the same contracts judge a handful of slices, the split, a reverse and a shift
+    longc = gp.GenCfg(min_len=257, max_len=320, letters=LETTERS, weights=dict(gp.W_SIMPLE), p_res=0.03, p_interval=0.3,
+                      p_charge=0.2, p_isotope=0.15, p_static=0.2, p_labile=0.2, p_unknown=0.15, p_nterm=0.7,
+                      p_cterm=0.9, p_tag=0, p_alt=0, p_mult=0.1)
+    for _ in range(ctx.n(48, 800)):
+        p = gp.gen_pep(ctx.rng, longc)
+        text = rp.write(p)
+        ctx.begin({'text': text, 'driver': 'long'})
+        n = len(p.seq)
+        try:
+            a = pt.parse(text)
+            d0 = rp.observed_fields(a)
+            for i in (0, 2, ctx.rng.randrange(n)):
+                a.slice(i, n)
+                a.slice(i, None)
+                a.copy().slice(i, n, inplace=True)
+            a.slice(0, ctx.rng.randrange(n))
+            pieces = list(a.split())
+            ctx.decided()
+            if len(pieces) != n or (p.cterm and not pieces[-1].has_cterm_mods()) or \
+                    (p.nterm and not pieces[0].has_nterm_mods()):
+                ctx.violation('split-loses-a-terminal-modification', {'text': text, 'pieces': len(pieces)})
+            ctx.decided()
+            if rp.observed_fields(a.reverse().reverse()) != d0:
+                ctx.violation('reverse-twice-not-identity', {'text': text})
+            a.shift(ctx.rng.randint(-n, n))
+        except Exception as ex:
+            ctx.violation('operation-raises', {'text': text[:300], 'exception': f'{type(ex).__name__}: {ex}'[:200]})
+        ctx.sig(('long', p.features()), True)
     # nested executions: drive digest / fragment so that their slice/split calls are judged too
     for _ in range(ctx.n(600, 20000)):
         p = gp.gen_pep(ctx.rng, cfg(14))
